@@ -11,6 +11,18 @@ NAMES_MODEL = ("on_enter_state", "after_transition")
 NAMES_L = ("on_transition", "on_enter_s1", "lact")
 
 
+def _hit(hits, *args, **kwargs):
+    hits.append(len(hits))
+
+
+def _instance_hook(sm):
+    """A per-instance hook stored on the instance before StateMachine.__init__ runs (a picklable
+    partial): it is a callback of this instance - and of its copies."""
+    import functools
+    sm.hits = []
+    sm.on_enter_s2 = functools.partial(_hit, sm.hits)
+
+
 class CopyModel:
     _prov = "model"
 
@@ -73,6 +85,7 @@ class CopySync(StateMachine):
     def __init__(self, *args, **kwargs):
         self.custom = {"list": [1, 2], "tag": "x"}
         self._secret = ["s"]
+        _instance_hook(self)
         super().__init__(*args, **kwargs)
 
     before_transition = _mk_sync("before_transition")
@@ -95,6 +108,7 @@ class CopyAsync(StateMachine):
     def __init__(self, *args, **kwargs):
         self.custom = {"list": [1, 2], "tag": "x"}
         self._secret = ["s"]
+        _instance_hook(self)
         super().__init__(*args, **kwargs)
 
     before_transition = _mk_async("before_transition")
@@ -119,6 +133,7 @@ class CopyPlain(StateMachine):
     def __init__(self, *args, **kwargs):
         self.custom = {"list": [1, 2], "tag": "x"}
         self._secret = ["s"]
+        _instance_hook(self)
         super().__init__(*args, **kwargs)
 
     before_transition = _mk_sync("before_transition")
@@ -142,6 +157,7 @@ class CopyLis(StateMachine):
     def __init__(self, *args, **kwargs):
         self.custom = {"list": [1, 2], "tag": "x"}
         self._secret = ["s"]
+        _instance_hook(self)
         super().__init__(*args, **kwargs)
 
     before_transition = _mk_sync("before_transition")
@@ -150,6 +166,26 @@ class CopyLis(StateMachine):
     on_enter_state = _mk_sync("on_enter_state")
     after_transition = _mk_sync("after_transition")
     g1 = _mk_sync("g1")
+
+
+class PropLock:
+    """A listener whose class owns a property that a transition uses as guard *by reference*."""
+
+    def __init__(self, unlocked):
+        self.unlocked = unlocked
+        self.reads = 0
+
+    @property
+    def is_unlocked(self):
+        self.reads += 1
+        return self.unlocked
+
+
+class PropDoor(StateMachine):
+    closed = State(initial=True)
+    opened = State()
+    open = closed.to(opened, cond=PropLock.is_unlocked)
+    shut = opened.to(closed)
 
 
 def _same_named_decoys():
